@@ -82,42 +82,56 @@ def check_dep(case):
     layout = tuple(case["layout"])
     edges = [tuple(e) for e in case["edges"]]
     groups = G.make_groups(layout, edges, case["style"])
-    graph, cyc = G.dep_truth(layout, groups)
-    if (cyc is not None) != M.reaches_itself(graph):
-        raise AssertionError(f"reference model inconsistent on {case}")
-    want = "CombinationalCycle" if cyc is not None else "ok"
+    gs, want, cyc = G.dep_truth(layout, groups)
+    for name in ("all", "sem", "claim"):
+        if (M.find_cycle(gs[name]) is not None) != M.reaches_itself(gs[name]):
+            raise AssertionError(f"reference model inconsistent on {case}")
     built = G.build_dep(layout, groups)           # construction errors are harness errors, not observations
     got = observe(lambda: built)
-    return want, got, graph, cyc, groups
+    return want, got, gs, cyc, groups
 
 
-def _shared_reentry(groups, graph, cyc):
-    """the cycle closes only because two different output bits of one word-level cell are on it"""
+def agrees(want, got):
+    if want == "either":
+        return got in ("ok", "CombinationalCycle")
+    return got == want
+
+
+def _shared_reentry(graph, cyc):
+    """the witness cycle passes through >= 2 distinct bits none of which depends on itself directly"""
     if cyc is None:
         return False
     return all(v not in graph.get(v, ()) for v in cyc) and len(set(cyc)) >= 2
 
 
+DEP_COUNTERS = ("evaluations", "distinct_nontrivial", "dep_designs", "dep_accept_expected", "dep_cycle_expected",
+                "dep_same_signal_feedforward_accepted", "dep_cycle_via_other_output_bit", "dep_register_breaks_cycle",
+                "ov_designs", "ov_cycle_only_through_default_of_overridden_bit", "ov_cycle_through_default_of_plain_bit",
+                "ov_cycle_through_override_value", "ov_cycle_through_override_condition",
+                "ov_accept_default_replaced_by_leading_unconditional_assignment", "ov_accept_near_miss_with_override",
+                "ov_dead_default_unspecified", "ov_dead_default_unspecified_observed_cycle",
+                "ov_dead_default_unspecified_observed_ok", "ov_cycle_chain_over_2_signals", "ov_cycle_chain_over_3_signals")
+
+
 def w_dep(task):
     layout, (key, lo, hi), style_list = task
-    gs = _SPACE[key][lo:hi]
-    out = {"cov": {"evaluations": 0, "distinct_nontrivial": 0, "dep_designs": 0, "dep_accept_expected": 0,
-                   "dep_cycle_expected": 0, "dep_same_signal_feedforward_accepted": 0, "dep_cycle_via_other_output_bit": 0,
-                   "dep_register_breaks_cycle": 0},
-           "samples": [], "violations": [], "kinds": {}, "by_style": {}}
+    gs_ = _SPACE[key][lo:hi]
+    out = {"cov": {k: 0 for k in DEP_COUNTERS}, "samples": [], "violations": [], "kinds": {}, "by_style": {}}
     cov = out["cov"]
     node_sig = [s for s, w in enumerate(layout) for _ in range(w)]
-    for edges in gs:
+    for edges in gs_:
         # is the enumerated graph itself cyclic (used to count designs where only a register makes the design legal)
         raw_cyclic = M.find_cycle({v: frozenset(u for (u, vv) in edges if vv == v) for v in range(len(node_sig))}) is not None
         for style in style_list:
             case = {"part": "dep", "layout": list(layout), "edges": [list(e) for e in edges], "style": style}
-            want, got, graph, cyc, groups = check_dep(case)
+            want, got, gs, cyc, groups = check_dep(case)
+            graph = gs["sem"]
+            ov = style.startswith("ov_")
             cov["evaluations"] += 1
             cov["dep_designs"] += 1
-            bs = out["by_style"].setdefault(style, [0, 0])
-            nontrivial = any(graph.values())
-            if nontrivial:
+            cov["ov_designs"] += ov
+            bs = out["by_style"].setdefault(style if not ov else "ov:" + "_".join(style.split("_")[1:3]), [0, 0])
+            if any(gs["all"].values()):
                 cov["distinct_nontrivial"] += 1
             if want == "ok":
                 cov["dep_accept_expected"] += 1
@@ -126,15 +140,42 @@ def w_dep(task):
                     cov["dep_same_signal_feedforward_accepted"] += 1
                 if "@r" in style and raw_cyclic:
                     cov["dep_register_breaks_cycle"] += 1
-            else:
+                if ov:
+                    if M.find_cycle(gs["all"]) is not None:
+                        cov["ov_accept_default_replaced_by_leading_unconditional_assignment"] += 1
+                    elif any(graph.values()):
+                        cov["ov_accept_near_miss_with_override"] += 1
+            elif want == "CombinationalCycle":
                 cov["dep_cycle_expected"] += 1
                 bs[1] += 1
-                if style.startswith("ws_") and _shared_reentry(groups, graph, cyc):
+                if style.startswith("ws_") and _shared_reentry(graph, cyc):
                     cov["dep_cycle_via_other_output_bit"] += 1
-            if got != want:
+                if ov:
+                    role = style.split("_")[1]
+                    if M.find_cycle(gs["nodefault_on_covered"]) is None:
+                        cov["ov_cycle_only_through_default_of_overridden_bit"] += 1
+                    elif role in ("d", "e", "p"):
+                        cov["ov_cycle_through_default_of_plain_bit"] += 1
+                    if role == "v":
+                        cov["ov_cycle_through_override_value"] += 1
+                    if role == "c":
+                        cov["ov_cycle_through_override_condition"] += 1
+                    nsig = len({node_sig[v] for v in cyc})
+                    if nsig == 2:
+                        cov["ov_cycle_chain_over_2_signals"] += 1
+                    elif nsig >= 3:
+                        cov["ov_cycle_chain_over_3_signals"] += 1
+            else:
+                cov["ov_dead_default_unspecified"] += 1
+                if got == "CombinationalCycle":
+                    cov["ov_dead_default_unspecified_observed_cycle"] += 1
+                elif got == "ok":
+                    cov["ov_dead_default_unspecified_observed_ok"] += 1
+            if not agrees(want, got):
                 why = (" (bit cycle " + "<-".join(map(str, cyc)) + ")") if cyc else ""
-                out["violations"].append({"sig": f"{G.dep_sig(case)}:got={got}:want={want}",
-                                          "what": f"dependency graph {G.dep_sig(case)}{why}: conversion outcome {got}, expected {want}",
+                want_s = want if want != "either" else "ok|CombinationalCycle"
+                out["violations"].append({"sig": f"{G.dep_sig(case)}:got={got}:want={want_s}",
+                                          "what": f"dependency graph {G.dep_sig(case)}{why}: conversion outcome {got}, expected {want_s}",
                                           "payload": case})
     return out
 
@@ -149,10 +190,13 @@ def plan(rep):
     if rep.quick:
         drv = [((2,), 2, 3, 2), ((3,), 2, 2, 1), ((1, 2), 2, 2, 1)]
         dep = [(3, 9, [(3,), (1, 2), (1, 1, 1)]), (4, 3, [(2, 2)]), (4, 2, [(4,)])]
+        ov = [(2, 4, [(2,), (1, 1)], "A"), (3, 3, [(1, 1, 1), (1, 2)], "B"), (3, 2, [(3,), (2, 1)], "B")]
     else:
         drv = [((2,), 2, 3, 3), ((3,), 2, 3, 2), ((1, 2), 2, 3, 2), ((2, 2), 2, 3, 1)]
         dep = [(3, 9, [(3,), (1, 2), (2, 1), (1, 1, 1)]), (4, 5, [(4,), (2, 2), (1, 3), (2, 1, 1)]), (5, 3, [(5,)]), (5, 4, [(2, 3)]),
                (6, 2, [(3, 3), (2, 2, 2)])]
+        ov = [(2, 4, [(2,), (1, 1)], "T"), (3, 9, [(3,), (1, 2), (2, 1), (1, 1, 1)], "B"), (3, 2, [(1, 2), (1, 1, 1)], "T"),
+              (4, 3, [(2, 2), (1, 3), (1, 1, 2)], "B")]
     for widths, max_ord, max_multi, styles_upto in drv:
         key = ("drv", widths, max_ord, max_multi)
         _SPACE[key] = list(G.driver_cases(widths, max_ord, max_multi))
@@ -165,9 +209,21 @@ def plan(rep):
         for layout in layouts:
             for lo in range(0, len(_SPACE[key]), 6):
                 tasks.append(("dep", (layout, (key, lo, lo + 6), st)))
+    # drivers of the form [unconditional whole-signal default ; conditional / partial override] (and chains of them)
+    for n, max_edges, layouts, level in ov:
+        st = G.ov_styles(level)
+        key = ("dep", n, max_edges)
+        if key not in _SPACE:
+            _SPACE[key] = list(G.graphs(n, max_edges))
+        step = max(1, 500 // len(st))
+        for layout in layouts:
+            for lo in range(0, len(_SPACE[key]), step):
+                tasks.append(("dep", (layout, (key, lo, lo + step), st)))
     bounds = {"drv": [{"widths": list(w), "ordered_tuples_up_to": a, "multisets_up_to": b, "if_switch_cat_styles_for_tuples_up_to": s}
                       for w, a, b, s in drv],
-              "dep": [{"bits": n, "max_edges": e, "layouts": [list(l) for l in ls], "styles": len(G.styles(n))} for n, e, ls in dep]}
+              "dep": [{"bits": n, "max_edges": e, "layouts": [list(l) for l in ls], "styles": len(G.styles(n))} for n, e, ls in dep],
+              "dep_default_override": [{"bits": n, "max_edges": e, "layouts": [list(l) for l in ls],
+                                        "styles": len(G.ov_styles(lv))} for n, e, ls, lv in ov]}
     return tasks, bounds
 
 
@@ -182,6 +238,11 @@ SAMPLE_CASES = [
     {"part": "dep", "layout": [1, 2], "edges": [[0, 1], [1, 0]], "style": "pb_or@r0"},
     {"part": "dep", "layout": [3], "edges": [[0, 1], [1, 0]], "style": "pb_if"},
     {"part": "dep", "layout": [3], "edges": [[1, 0], [1, 1]], "style": "ws_add_w"},
+    # s0.eq(f(s1)); If: s0[0].eq(x)  /  s1.eq(f(s0)); If: s1[0].eq(x): loop through the defaults of two overridden bits
+    {"part": "dep", "layout": [1, 1], "edges": [[0, 1], [1, 0]], "style": "ov_d_ifb0_or"},
+    {"part": "dep", "layout": [1, 1], "edges": [[0, 1], [1, 0]], "style": "ov_d_ufull_or"},      # defaults replaced: legal
+    {"part": "dep", "layout": [1, 1], "edges": [[0, 1], [1, 0]], "style": "ov_e_ifb0_or"},       # dead default: unspecified
+    {"part": "dep", "layout": [1, 1, 1], "edges": [[0, 1], [1, 2], [2, 0]], "style": "ov_m0_nestlast_add_hi"},
 ]
 
 
@@ -206,7 +267,12 @@ def run(rep):
                "DSL (plain, If, Switch, bitwise Cat target) and with raw Fragments; expected DriverConflict iff a bit has two owners "
                "(DSL SyntaxError iff one module assigns a bit from two domains). (b) every directed graph (self loops allowed) on "
                "the listed bit counts up to the edge bound x every listed layout x every style; expected CombinationalCycle iff a "
-               "bit reaches itself under the statement's dependency rules, otherwise rtlil.convert must succeed. non-trivial: "
+               "bit reaches itself under the statement's dependency rules, otherwise rtlil.convert must succeed. "
+               "(b') the same graphs realised with drivers [unconditional whole-signal default ; override] for every value edge "
+               "kind: override conditional (If, Switch case, nested If, Else) or unconditional, covering the whole signal / bit 0 / "
+               "the high slice / the last bit, with the dependency placed in the default, the override value, the override "
+               "condition or rotating over the signals (chains), plus a leading / trailing unconditional replacement of the "
+               "default; a bit depends on an earlier assignment unless a later unconditional assignment covers it. non-trivial: "
                "designs with >= 2 drivers / with >= 1 dependency edge")
     for case in SAMPLE_CASES:          # a few fixed members of the space, evaluated here so that the evidence shows real outcomes
         if case["part"] == "drv":
@@ -225,9 +291,24 @@ def run(rep):
         rep.require(rep.cov.get(key, 0) > 0, f"{key} is zero")
     for st, (acc, cyc) in by_style.items():
         rep.require(acc > 0, f"style {st}: no accepted design")
-        if not st.endswith("@rall"):
+        never_cyclic = st.endswith("@rall") or st.startswith(("ov:e_", "ov:p_")) or st == "ov:d_ufull"
+        if not never_cyclic:
             rep.require(cyc > 0, f"style {st}: no cyclic design")
+    for key in ("ov_cycle_only_through_default_of_overridden_bit", "ov_cycle_through_default_of_plain_bit",
+                "ov_cycle_through_override_value", "ov_cycle_through_override_condition",
+                "ov_accept_default_replaced_by_leading_unconditional_assignment", "ov_accept_near_miss_with_override",
+                "ov_dead_default_unspecified", "ov_cycle_chain_over_2_signals", "ov_cycle_chain_over_3_signals"):
+        rep.require(rep.cov.get(key, 0) > 0, f"{key} is zero")
+    for role in ("d", "v", "c", "m0", "m1", "m2"):
+        for cond in G.OV_CONDS:
+            if cond == "u" and role != "d" and role != "v":
+                continue
+            rep.require(any(k.startswith(f"ov:{role}_{cond}") and v[1] > 0 for k, v in by_style.items()),
+                        f"default/override drivers: no cyclic design with role {role} and override kind {cond}")
     rep.assume("two different instance / memory / I/O-buffer outputs on one bit count as a driver conflict (each is its own driver)")
+    rep.assume("a loop that exists only through an assignment made unobservable by a LATER unconditional assignment is accepted "
+               "either way (ok or CombinationalCycle), except when the dead assignment is an unconditional whole-signal one in the "
+               "leading run of such assignments of its signal (then the design must be accepted)")
     rep.assume("an asynchronous memory read port makes its data depend combinationally on its address; Instances are not used "
                "inside dependency paths; If/Elif chains and don't-care patterns are not generated (their condition dependencies "
                "are not fixed by the statement)")
@@ -238,6 +319,6 @@ def replay(payload):
         want, got = check_drv(payload)
     else:
         want, got = check_dep(payload)[:2]
-    if got != want:
-        return [f"conversion outcome {got}, expected {want}"]
+    if not agrees(want, got):
+        return [f"conversion outcome {got}, expected {want if want != 'either' else 'ok|CombinationalCycle'}"]
     return []
